@@ -9,36 +9,8 @@ import (
 
 // ---- generator of Sysl specifications (text, compiled by the real parser) ----
 
-// payload forms the embedded grammar of relmod accepts (validated on the pinned tree) with what it must
-// extract: status, a rendering of the type, modifiers, nvp keys.
-type payForm struct {
-	text   string
-	status string
-	typ    string // "" none, else rendering by renderRetType with app "@" for the local app
-	mods   string
-	nvps   string
-}
-
-var goodPayloads = []payForm{
-	{"ok", "ok", "", "", ""},
-	{"error", "error", "", "", ""},
-	{"500", "500", "", "", ""},
-	{"ok <: string", "ok", "prim(string)", "", ""},
-	{"ok <: T0", "ok", "ref(@;T0)", "", ""},
-	{"error <: T0", "error", "ref(@;T0)", "", ""},
-	{"ok <: A0.T0", "ok", "ref(A0;T0)", "", ""},
-	{"200 <: sequence of T0", "200", "seq(ref(@;T0))", "", ""},
-	{"ok <: set of int", "ok", "set(prim(int))", "", ""},
-	{"ok <: sequence of A0.T0", "ok", "seq(ref(A0;T0))", "", ""},
-	{"ok <: Ns::A1.T0", "ok", "ref(Ns,A1;T0)", "", ""},
-	{"ok <: string [~hdr]", "ok", "prim(string)", "hdr", ""},
-	{"ok <: T0 [k=\"v\"]", "ok", "ref(@;T0)", "", "k"},
-	{"ok <: T0 [~m1, arr=[\"a\", \"b\"]]", "ok", "ref(@;T0)", "m1", "arr"},
-	{"201 <: T0 [nest=[[\"a\", \"b\"], [\"c\"]], k=\"v\"]", "201", "ref(@;T0)", "", "k,nest"},
-}
-
 // forms the grammar refuses today (Normalize returns an error: allowed by the property)
-var badPayloads = []string{"200 ok", "200, 500", "500 < Err"}
+var badPayloads = []string{"200 ok", "200, 500", "500 < Err", "ok <: sequence of ", "ok <: a::"}
 
 type genOpts struct {
 	maxDepth   int
@@ -57,6 +29,8 @@ type gen struct {
 	nStmts   int
 	nAlt     int
 	bad      bool
+	shadowed bool // a payload names a primitive that an ordered choice in declaration order never reaches
+	prefixed bool // a payload names a type that begins with the name of a primitive
 }
 
 func (g *gen) line(ind int, s string) { g.b.WriteString(strings.Repeat("    ", ind) + s + "\n") }
@@ -133,7 +107,14 @@ func (g *gen) payload() string {
 		g.bad = true
 		return badPayloads[g.r.Intn(len(badPayloads))]
 	}
-	return goodPayloads[g.r.Intn(len(goodPayloads))].text
+	t, m := genPayloadText(g.r)
+	if m.typ.uses(shadowedPrims) {
+		g.shadowed = true
+	}
+	if m.typ.uses(primPrefixedNames) {
+		g.prefixed = true
+	}
+	return t
 }
 
 var blockHeads = []string{"if c%d:", "for each x%d in xs:", "loop l%d:", "while w%d:", "until u%d:", "for f%d:", "alt a%d:", "grp%d:"}
